@@ -10,7 +10,7 @@ observations.
 
 Records of one case (see go/harness/mcp/zz_verif_clientstream_test.go):
   reset
-  scn <post|sa> mr=<MaxRetries field> first=<cut>:<term> script=.. log=<items> full=x<hex>     obs ok
+  scn <post|sa> mr=<MaxRetries field> first=<cut>:<term> script=.. log=<items> full=x<hex> [bg=sahang]    obs ok
   x <k> <terr|ctxc|ctxd|st<code>|ok:<cut>:<term>>[*] from=<idx|-|unknown> t=<µs> e=<µs> [is=<c><d><t>] [code=<n> ct=<..> junk=x<hex>]   obs lei=<x<hex>|->
       is=   (terr) what the error answered to errors.Is(Canceled) / errors.Is(DeadlineExceeded) / Timeout()
       junk= (ok:0:<term>) a foreign answer: the bytes of a body that is no SSE stream; accepted only if the model's
@@ -180,6 +180,14 @@ def engine : Engine DState where
         let items ← if lg = "-" then some [] else (lg.splitOn ";").mapM parseItem
         let full ← (kv rest "full").bind (fun s => hexToBytes (dropS s 1))
         if kind != "post" && kind != "sa" then none
+        -- bg: another stream of the connection is reconnecting meanwhile (its GET accepted, never answered). The streams
+        -- of a connection share nothing in the model: the run of the stream under test is the same function of its
+        -- own exchanges. Admitted for call streams with a budget (MaxRetries -1: the first fruitless body of the
+        -- background stream fails the whole connection, by design).
+        match kv rest "bg" with
+        | none => pure ()
+        | some "sahang" => if kind = "post" && mr ≥ 0 then pure () else none
+        | some _ => none
         if bodyFrom items 0 != full then none
         let scn : Scn String := { lab := strLabels, sa := kind == "sa", mr := Generated.ClientStream.maxRetriesOf mr, items := items }
         -- the scenario is one of a faithful server: the hypothesis of `monitor_accepts_model`
